@@ -23,6 +23,17 @@ CHECK_RE = re.compile(
     re.M)
 
 
+RUNNING = set()   # process-group ids of running solver processes (killed when the check is terminated)
+
+
+def kill_all():
+    for pid in list(RUNNING):
+        try:
+            os.killpg(pid, signal.SIGKILL)
+        except (ProcessLookupError, PermissionError):
+            pass
+
+
 class Result:
     def __init__(self):
         self.verdict = "ERROR"
@@ -210,6 +221,7 @@ def run_query(cwd, harness, target_dir, log_path, cap_s, mem_gb=14, features=Non
         lf.flush()
         p = subprocess.Popen(cmd, cwd=cwd, env=env, stdout=lf, stderr=subprocess.STDOUT,
                              preexec_fn=_limits(mem_gb))
+        RUNNING.add(p.pid)
         try:
             p.wait(timeout=cap_s)
             timed_out = False
@@ -220,6 +232,7 @@ def run_query(cwd, harness, target_dir, log_path, cap_s, mem_gb=14, features=Non
             except ProcessLookupError:
                 pass
             p.wait()
+    RUNNING.discard(p.pid)
     res.wall_s = time.time() - t0
     with open(log_path, errors="replace") as lf:
         text = lf.read()
